@@ -122,6 +122,61 @@ impl<'i> Visitor<'i> for VA {
     }
     id_hooks!();
 }
+/// visitor (r): as (a), and re-entrant: at every block / loop / if it runs a complete traversal
+/// of that construct's (last) sequence with a visitor of its own before returning; traversals are
+/// plain functions over a borrowed function, so a nested one must not disturb the one in progress
+pub struct VR<'f> {
+    pub rec: Rec,
+    pub func: &'f LocalFunction,
+    pub inner_events: u64,
+}
+impl<'i> Visitor<'i> for VR<'i> {
+    fn start_instr_seq(&mut self, s: &'i InstrSeq) {
+        self.rec.ev(Evt::Start(s.id().index()));
+    }
+    fn end_instr_seq(&mut self, s: &'i InstrSeq) {
+        self.rec.ev(Evt::End(s.id().index()));
+    }
+    fn visit_instr(&mut self, i: &'i Instr, _: &'i InstrLocId) {
+        self.rec.ev(Evt::Instr(i as *const Instr as usize));
+        let child = match i {
+            Instr::Block(b) => Some(b.seq),
+            Instr::Loop(l) => Some(l.seq),
+            Instr::IfElse(ie) => Some(ie.alternative),
+            _ => None,
+        };
+        if let Some(seq) = child {
+            let mut inner = VA(Rec::new(false));
+            dfs_in_order(&mut inner, self.func, seq);
+            self.inner_events += inner.0.events;
+        }
+    }
+    fn visit_instr_seq_id(&mut self, _x: &InstrSeqId) {}
+    fn visit_local_id(&mut self, x: &LocalId) {
+        self.rec.ev(Evt::Id('L', x.index()));
+    }
+    fn visit_memory_id(&mut self, x: &MemoryId) {
+        self.rec.ev(Evt::Id('M', x.index()));
+    }
+    fn visit_table_id(&mut self, x: &TableId) {
+        self.rec.ev(Evt::Id('T', x.index()));
+    }
+    fn visit_global_id(&mut self, x: &GlobalId) {
+        self.rec.ev(Evt::Id('G', x.index()));
+    }
+    fn visit_function_id(&mut self, x: &FunctionId) {
+        self.rec.ev(Evt::Id('F', x.index()));
+    }
+    fn visit_data_id(&mut self, x: &DataId) {
+        self.rec.ev(Evt::Id('D', x.index()));
+    }
+    fn visit_type_id(&mut self, x: &TypeId) {
+        self.rec.ev(Evt::Id('Y', x.index()));
+    }
+    fn visit_element_id(&mut self, x: &ElementId) {
+        self.rec.ev(Evt::Id('E', x.index()));
+    }
+}
 /// visitor (b): per-instruction hooks overridden with empty bodies as well
 pub struct VB(pub Rec);
 impl<'i> Visitor<'i> for VB {
@@ -407,6 +462,11 @@ pub fn check_function(m: &mut Module, fid: FunctionId) -> Vec<(String, String)> 
         let mut v = VB(Rec::new(true));
         dfs_in_order(&mut v, f, start);
         if let Some(x) = judge_immutable("overridden-hooks", &r, &v.0.log) {
+            out.push(x);
+        }
+        let mut v = VR { rec: Rec::new(true), func: f, inner_events: 0 };
+        dfs_in_order(&mut v, f, start);
+        if let Some(x) = judge_immutable("nested-traversal-in-callback", &r, &v.rec.log) {
             out.push(x);
         }
     }
